@@ -88,6 +88,13 @@ _BOUNDED_ONLY = {
  "C16": "EVO vs Fluent: seeded + enumerated operation programs run on both devices (and BaseWorklist), records compared field by field with the own trough numbering relation, volumes / compositions / histories / exception classes compared.",
  "C18": "Column partitioning: all triple lists of length <= 2 (3 thorough) over a collision-rich well set + seeded random lists up to 40 triples; multiset preservation, single column per group, ascending columns and rows; automatic mode rule on all labware-kind pairs.",
 }
+_C13 = _BOUNDED_ONLY.pop("C13")
+CHECKS["C13"] = {
+  "category": "other",
+  "technique": "contract-based deductive verification of commands.evo_aspirate / evo_dispense (postcondition: command == EVOware rope of the arguments, selection called with the labware dimensions and the 0/1 array of exactly the given wells; raise iff the call cannot be expressed) + bounded monitor for the worklist methods and evo_wash",
+  "text": "Proved on the real bodies for 1-2 wells/tips with symbolic ids, tips (ints and Tip members), scalar and per-tip volumes, grid/site/arm, liquid class: the returned command equals 'B;Aspirate|Dispense(mask,\"lc\",slot1..slot8,0,0,0,0,grid,site-1,1,\"sel\",0,arm);' with mask = OR of the tips, slot t = the 2-decimal volume paired with tip t (0 otherwise), and the selection string computed (C12 contract) from exactly the given wells; ValueError iff grid/site/arm/volume/liquid class are out of range, tips are not distinct ascending tips 1-8, wells are not strictly ascending within one column; InvalidOperationError iff a volume exceeds max_volume. " + _C13,
+  "note": "Mixed level: require_single_column_selection enters through an assumed summary (validated by the bounded monitor); evo_get_selection through its C12 contract; EvoWorklist.evo_* and evo_wash are covered by the bounded monitor. Lists longer than 2 are bounded. bool/float grid, site, arm are outside the universe.",
+}
 for _pid, _txt in _BOUNDED_ONLY.items():
     CHECKS[_pid] = {
         "category": "exploration",
